@@ -436,7 +436,7 @@ func ruleC19Rejection(c *Ctx, r *Reporter) {
 				own[call] = true
 			}
 		})
-		idx := 0
+		seenRej := map[string]int{}
 		for _, b := range fn.Blocks {
 			if len(b.Instrs) == 0 {
 				continue
@@ -502,8 +502,11 @@ func ruleC19Rejection(c *Ctx, r *Reporter) {
 					}
 					muts = append(muts, o+" at "+c.InsPos(ins))
 				}
-				cons := fmt.Sprintf("service.KevoServiceServer.%s:reject[%s]#%d", n, ft.what, idx)
-				idx++
+				cons := fmt.Sprintf("service.KevoServiceServer.%s:reject[%s]", n, ft.what)
+				if seenRej[cons] > 0 {
+					cons = fmt.Sprintf("%s#%d", cons, seenRej[cons]+1)
+				}
+				seenRej[fmt.Sprintf("service.KevoServiceServer.%s:reject[%s]", n, ft.what)]++
 				r.Check(len(muts) == 0, cons, c.blockPos(start), "the rejection path performs no mutating operation",
 					"a request rejected for an "+ft.what+" still performs "+strings.Join(muts, ", ")+" before returning: the rejection has a side effect on the caller's state")
 			}
